@@ -111,6 +111,7 @@ FUNCS = {
     "strerrorlen_s": ("shim_strerrorlen_s", "n", "ip", 1),
     "asctime_s":     ("shim_asctime_s", "e", "pnpnpn", 1),
     "ctime_s":       ("shim_ctime_s", "e", "pnpnpn", 1),
+    "gets_s":        ("shim_gets_s", "e", "pnnpn", 1),
 }
 
 
